@@ -483,3 +483,28 @@ package compile
 //@   requires target != nil && property != nil
 //@   modifies *
 //@   ensures implies(node_type(property) != parse.NodeUnknown, iff(result == nil, node_lookup_child(target, node_type(property), node_name(property)) != nil))
+
+// Which properties the three kinds of deviate accept (RFC 6020 7.18.3.2; "deviations the RFC forbids are rejected"):
+//   delete:  units, default, must, unique (and extension statements);
+//   replace: type, units, default, config, mandatory, min-elements, max-elements (and extensions of cardinality 1);
+//   add:     what the target's own substatement table allows - never a statement the target cannot have, and a
+//            statement it can have once only if it has none yet.
+//@ define stdProp(t) = t == parse.NodeUnits || t == parse.NodeDefault || t == parse.NodeConfig || t == parse.NodeMandatory || t == parse.NodeMinElements || t == parse.NodeMaxElements || t == parse.NodeMust || t == parse.NodeUnique
+//@ func (*deviateDelete).isAllowed
+//@   requires property != nil
+//@   ensures implies(node_type(property) == parse.NodeUnits || node_type(property) == parse.NodeDefault || node_type(property) == parse.NodeMust || node_type(property) == parse.NodeUnique, result == nil)
+//@   ensures implies(node_type(property) == parse.NodeTyp || node_type(property) == parse.NodeConfig || node_type(property) == parse.NodeMandatory || node_type(property) == parse.NodeMinElements || node_type(property) == parse.NodeMaxElements, result != nil)
+//@ func (*deviateReplace).isAllowed
+//@   requires property != nil
+//@   modifies *
+//@   ensures implies(node_type(property) == parse.NodeTyp || node_type(property) == parse.NodeUnits || node_type(property) == parse.NodeDefault || node_type(property) == parse.NodeConfig || node_type(property) == parse.NodeMandatory || node_type(property) == parse.NodeMinElements || node_type(property) == parse.NodeMaxElements, result == nil)
+//@ func (*deviateReplace).propertyAction
+//@   requires target != nil && property != nil
+//@   modifies *
+//@   ensures implies(node_type(property) != parse.NodeUnknown, iff(result == nil, node_nchildren_of(target, node_type(property)) != 0))
+//@ func (*deviateAdd).isAllowed
+//@   requires target != nil && property != nil
+//@   modifies *
+//@   ensures implies(stdProp(node_type(property)) && node_cardend(target, node_type(property)) == '0', result != nil)
+//@   ensures implies(stdProp(node_type(property)) && node_cardend(target, node_type(property)) == 'n', result == nil)
+//@   ensures implies(stdProp(node_type(property)) && node_cardend(target, node_type(property)) == '1', iff(result == nil, node_nchildren_of(target, node_type(property)) == 0))
